@@ -338,6 +338,25 @@ def main():
     crashed = [o for o in outs if o.get('crashed')]
 
     bfail = (bounded or {}).get('failures', []) if bounded else []
+    # an undecided obligation with a candidate input becomes a refutation only if that input, replayed
+    # on the real function of the tree under test, really breaks the clause
+    for ob in list(undecided):
+        cm = ob.get('candidate_model')
+        if not cm:
+            continue
+        trial = dict(ob)
+        trial['model'] = cm
+        trial['candidate_input'] = True
+        rp = try_replay(pid, trial)
+        if rp.get('reproduced'):
+            ob['verdict'] = 'refuted'
+            ob['backend'] = (ob.get('backend') or '') + '+candidate-replayed'
+            ob['model'] = cm
+            ob['candidate_input'] = True
+            ob['native_replay'] = rp
+            ob['detail'] = 'solver undecided; candidate input (quantified facts dropped) reproduces the failure on the real code'
+            undecided.remove(ob)
+            refuted.append(ob)
     for ob in refuted:
         kf = finding_for(findings, pid, 'obligation', name=ob['name'])
         if kf is not None:
